@@ -40,6 +40,17 @@ CHECKS = {
               "and the tol = 0.5 / 1.5 results are subsequences. Trace_Crossings: random series up to 5000 samples validated sample by sample."),
         design_ref="DESIGN.md section 4, C12",
         note="exhaustive on the two integer alphabets; sampled for real-valued series (|values| in [1e-100,1e100]); switched peaks: any maximiser accepted; trusted: TLC 1.8, FP.class, TableIO.class"),
+    "C04": dict(
+        engine="SignalCache",
+        technique="TLA+ object model of the memo state (flag + freshness ghost), TLC exhaustive over the complete state space; every edge of TLC's state graph replayed on real objects (snapshot lock-step walk); -simulate behaviours replayed; recorded sessions validated by a TLC trace spec",
+        category="model_checking",
+        text=("SignalCache (57 operations for AccSignal, 31 for Signal): NoStale / ReadsPure / ReadIdempotent hold on the complete finite state "
+              "space (all histories of any length) for the repaired model, and TLC exhibits the 3-step counterexample on the as-found model. "
+              "Binding: all 3420 + 93 edges (observational cache state x operation) are executed on real AccSignal/Signal snapshots and every "
+              "read is compared with a freshly constructed object; TLC -simulate behaviours (depth 40/60) and driver-chosen sessions are "
+              "replayed, logged and validated by Trace_SignalCache."),
+        design_ref="DESIGN.md section 4, C04",
+        note="freshness oracle = fresh object of the same class (same library code, by design); float64 records; trusted: TLC 1.8, numpy, copy.deepcopy"),
 }
 
 NOT_YET = {}
